@@ -92,16 +92,23 @@ def check(case):
     el = _eliminate(m, P, d, phi)
     if el is None:
         res.discarded = True
+        res.discard_reason = 'bc-elimination-singular'
         return res
     Ae, se, A, s, I = el
     alpha = np.full(nint, float(P['alpha'])) if np.isscalar(P['alpha']) else np.array(P['alpha'], float).ravel()
     B = Ae / alpha[:, None]
     nB = float(np.abs(B).sum(axis=1).max())
     nA = float((np.abs(A)[I] / alpha[:, None]).sum(axis=1).max())
-    if not np.isfinite(nB) or nB <= 1e-10 * nA:
-        # the eliminated operator vanishes (e.g. one cell, Neumann everywhere): no time scale to refer dt to
+    degenerate = False
+    if not np.isfinite(nB):
         res.discarded = True
+        res.discard_reason = 'degenerate-operator'
         return res
+    if nB <= 1e-10 * nA:
+        # the eliminated operator vanishes (e.g. one cell, Neumann everywhere): no time scale to refer dt to; the residual
+        # identity and the explicit-step laws are still checked (dt = theta), the dt-limit bounds are not
+        degenerate = True
+        nB = 1.0
     dt = P['theta'] / nB
     theta = P['theta']
     tag = f"{P['scheme']}:{name}"
@@ -126,6 +133,7 @@ def check(case):
         newfull = np.array(phi._value, float)
         if not np.all(np.isfinite(newfull)):
             res.discarded = True
+            res.discard_reason = 'nonfinite-step'
             return res
         new = newfull[tuple(slice(1, -1) for _ in d)].ravel()
         t1 = alpha * (new - old) / dt
@@ -162,7 +170,7 @@ def check(case):
     r0 = (Ae @ old - se) / alpha
 
     # ---- (iii-b) dt -> 0 and (v) implicit vs explicit
-    if lin and theta <= 0.1:
+    if lin and theta <= 0.1 and not degenerate:
         m, BC, phi = problem.build_var(P)
         problem.step_implicit(m, phi, P, dt)
         new = np.asarray(phi.value, float).ravel()
@@ -187,7 +195,7 @@ def check(case):
                          float(np.abs(diff - lead).max() / np.abs(lead).max()))
 
     # ---- (ii) steady state is a fixed point, (iii-a) dt -> inf
-    if lin and _steady_ok(P):
+    if lin and _steady_ok(P) and not degenerate:
         try:
             Ainv = np.linalg.inv(Ae)
         except np.linalg.LinAlgError:
@@ -196,6 +204,7 @@ def check(case):
         cond = float(np.abs(Ainv).sum(axis=1).max() * np.abs(Ae).sum(axis=1).max())
         if not np.all(np.isfinite(star)) or cond > 1e10:
             res.discarded = True
+            res.discard_reason = 'steady-illconditioned'
             return res
         # the code's own steady solve
         m, BC, phi = problem.build_var(P)
@@ -203,6 +212,7 @@ def check(case):
         st_code = np.asarray(phi.value, float).ravel()
         if not np.all(np.isfinite(st_code)):
             res.discarded = True
+            res.discard_reason = 'steady-nonfinite'
             return res
         scs = np.abs(star).max() + 1e-300
         res.expect_small("steady-solve", float(np.abs(st_code - star).max() / scs), 1e-9 * max(1.0, cond * 1e-6), f"steady-solve:{tag}",
@@ -217,6 +227,7 @@ def check(case):
             cT = float('inf')
         if not cT < 1e8:
             res.discarded = True
+            res.discard_reason = 'step-system-illconditioned'
             return res
         problem.step_implicit(m, phi, P, dt)
         new = np.asarray(phi.value, float).ravel()
